@@ -20,6 +20,9 @@
                      brSkipStr, skipBRAt, skipBR (C02 C03 C08 C17)
     Funcs/Dec        BytesSkipDecoder.SkipN/Reset/Next = bytesBackend / bytesDecNext; SkipDecoder.SkipN/Next over the reader model
                      = bufioxBackend / bufioxDecNext, through the generalised template simulation Funcs/TplG (C02 C03 C08)
+    Funcs/BufioxR    bufiox.DefaultReader (reset, acquire, acquireSlow, Next, Peek, Skip, ReadLen, ReadBinary, Release, maxSizeStats) translated by
+                     extract/bufiox.go (slices WITH capacity: Base/GoSemCap) simulates the reader model Rd of Model/Reader (C04)
+    Funcs/BufioxW    bufiox.DefaultWriter (acquire, acquireSlow, Malloc, WriteBinary, WrittenLen, Flush) simulates the writer model (C05)
 -/
 import Verif.Lemmas.Funcs.Read
 import Verif.Lemmas.Funcs.Write
@@ -34,6 +37,8 @@ import Verif.Lemmas.Funcs.StreamW
 import Verif.Lemmas.Funcs.StreamR
 import Verif.Lemmas.Funcs.StreamSkip
 import Verif.Lemmas.Funcs.Dec
+import Verif.Lemmas.Funcs.BufioxR
+import Verif.Lemmas.Funcs.BufioxW
 namespace Verif.FuncsEq
 
 /-- every whitelisted function was translated in this run (a refused one has no definition and no theorem) -/
